@@ -271,3 +271,10 @@ func finishHistory(e *drv.Env, fail func(*drv.Violation)) {
 		}
 	}
 }
+
+func jsonUnmarshal(b []byte, v any) error {
+	if len(b) == 0 {
+		return nil
+	}
+	return json.Unmarshal(b, v)
+}
